@@ -61,6 +61,12 @@ func NewResponseRecorder(w http.ResponseWriter) *ResponseRecorder {
 // WriteHeader records the status code and calls the
 // underlying ResponseWriter's WriteHeader method.
 func (r *ResponseRecorder) WriteHeader(status int) {
+	if status < 100 || status > 999 {
+		// net/http refuses such a status by panicking: nothing is sent, and
+		// whoever recovers still has a response to write, with its own status
+		r.ResponseWriterWrapper.WriteHeader(status)
+		return
+	}
 	// an informational response (such as 103 Early Hints) is
 	// not the status of the response: the final one follows
 	if status < 100 || status >= 200 || status == http.StatusSwitchingProtocols {
